@@ -208,13 +208,13 @@ Section Monitors.
 
   (* ---------------------------------------------------------------- per-observation checks *)
   Record verdicts := { v01 : bool; v03 : bool; v05 : bool; v09 : bool; v10 : bool; v11 : bool;
-                       v14 : bool; v18 : bool }.
+                       v14 : bool; v18 : bool; vfu : bool }.
   Definition vand (a b : verdicts) : verdicts :=
     {| v01 := v01 a && v01 b; v03 := v03 a && v03 b; v05 := v05 a && v05 b;
        v09 := v09 a && v09 b; v10 := v10 a && v10 b; v11 := v11 a && v11 b;
-       v14 := v14 a && v14 b; v18 := v18 a && v18 b |}.
+       v14 := v14 a && v14 b; v18 := v18 a && v18 b; vfu := vfu a && vfu b |}.
   Definition vtrue := {| v01 := true; v03 := true; v05 := true; v09 := true; v10 := true;
-                         v11 := true; v14 := true; v18 := true |}.
+                         v11 := true; v14 := true; v18 := true; vfu := true |}.
 
   (* C03 (d) / C10: every abandoned call whose request went out was cancelled on the wire, or
      its request had ended from the dispatcher's view *)
@@ -238,7 +238,7 @@ Section Monitors.
          v10 := negb (m_close_called m);
          v11 := true; v14 := true;
          (* the cancellation carries the trace context its request was sent with *)
-         v18 := existsb (fun s => tctx_eqb (s_tc s) tc) reqs |}
+         v18 := existsb (fun s => tctx_eqb (s_tc s) tc) reqs; vfu := true |}
     | CSend (MReq id dl tc body) _ =>
       {| v01 := true; v03 := true; v05 := true;
          v09 := match m_first_err m with None => true | Some _ => false end;
@@ -251,7 +251,7 @@ Section Monitors.
                                  (k_created k + k_rel k =? dl)
                 | None => false end
                 && (tc_sid tc =? id)
-                && forallb (fun s => negb (s_id s =? id)) (m_sent m) |}
+                && forallb (fun s => negb (s_id s =? id)) (m_sent m); vfu := true |}
     | CClose _ =>
       {| v01 := true; v03 := true; v05 := true;
          v09 := match m_first_err m with None => true | Some _ => false end;
@@ -261,12 +261,12 @@ Section Monitors.
                 forallb (fun i => done_idx m i || mem_nat i (m_abandoned m))
                         (seq 0 (length (m_calls m))) &&
                 abandoned_covered m;
-         v11 := true; v14 := true; v18 := true |}
+         v11 := true; v14 := true; v18 := true; vfu := true |}
     | _ =>
       {| v01 := true; v03 := true; v05 := true;
          (* after a fatal error the transport is never touched again *)
          v09 := match m_first_err m with None => true | Some _ => false end;
-         v10 := true; v11 := true; v14 := true; v18 := true |}
+         v10 := true; v11 := true; v14 := true; v18 := true; vfu := true |}
     end.
 
   Fixpoint chk_calls (maxif : nat) (m : mst) (l : call_log) : verdicts * mst :=
@@ -308,7 +308,7 @@ Section Monitors.
          | OSendErr => existsb (fun s => negb (s_ok s)) reqs
          | _ => true
          end;
-       v10 := true; v11 := true; v14 := true; v18 := true |}.
+       v10 := true; v11 := true; v14 := true; v18 := true; vfu := true |}.
 
   Definition is_pending (r : dpoll) := match r with DPending => true | _ => false end.
   (* failing to write a cancellation ends the dispatch; failing to write a request does not *)
@@ -326,7 +326,7 @@ Section Monitors.
       (* C09 / C10: once the dispatch has failed, or was dropped, no call stays pending *)
       let hang := match m_disp m1 with Some (DErr _) => true | _ => m_disp_dropped m1 end in
       ({| v01 := true; v03 := true; v05 := true; v09 := negb hang; v10 := negb hang;
-          v11 := true; v14 := true; v18 := true |}, m1)
+          v11 := true; v14 := true; v18 := true; vfu := true |}, m1)
     | PollCall _, [] => (vtrue, m1)
     | PollDispatch, [OCalls l; ODisp r; OGauge a b] =>
       let '(v, m2) := chk_calls maxif m1 l in
@@ -356,8 +356,8 @@ Section Monitors.
                          && forallb (fun i => done_idx m2 i || mem_nat i (m_abandoned m2))
                                     (seq 0 (length (m_calls m2))))
                    || (a =? 0));
-           v14 := okc && match r with DFuel => false | _ => true end;
-           v18 := true |} in
+           v14 := okc;
+           v18 := true; vfu := match r with DFuel => false | _ => true end |} in
       (vand v vd,
        upd_m m2 (m_now m2) (m_calls m2) (m_done m2) (m_abandoned m2) (m_closing m2) (m_polled m2)
              (match r with DReady d => Some d | _ => m_disp m2 end) (m_disp_dropped m2)
@@ -367,7 +367,7 @@ Section Monitors.
     | _, _ =>
       (* OPanic, OSpin or a malformed observation list: no property tolerates it *)
       ({| v01 := false; v03 := false; v05 := false; v09 := false; v10 := false; v11 := false;
-          v14 := false; v18 := false |}, m1)
+          v14 := false; v18 := false; vfu := false |}, m1)
     end.
 
   Fixpoint chk_run (maxif : nat) (m : mst) (ops : list op) (tr : list (list obs)) : verdicts :=
@@ -376,7 +376,7 @@ Section Monitors.
     | o :: ops', os :: tr' =>
       let '(v, m') := chk_obs maxif o m os in vand v (chk_run maxif m' ops' tr')
     | _, _ => {| v01 := false; v03 := false; v05 := false; v09 := false; v10 := false;
-                 v11 := false; v14 := false; v18 := false |}
+                 v11 := false; v14 := false; v18 := false; vfu := false |}
     end.
 
   Definition monitors (maxif : nat) (ops : list op) (tr : list (list obs)) : verdicts :=
@@ -390,4 +390,6 @@ Section Monitors.
   Definition c11_ok maxif ops tr := v11 (monitors maxif ops tr).
   Definition c14_ok maxif ops tr := v14 (monitors maxif ops tr).
   Definition c18_ok maxif ops tr := v18 (monitors maxif ops tr).
+  (* every poll of the dispatch returns within its fuel *)
+  Definition cfuel_ok maxif ops tr := vfu (monitors maxif ops tr).
 End Monitors.
